@@ -847,3 +847,382 @@ struct ReadTransactionCounterInner {
     read_transactions: Mutex<usize>,
     cvar: Condvar,
 }
+
+/// Verification hook (compiled only with `--cfg nomt_verif`): the real [`Tree`] on a scratch directory driven
+/// one protocol step at a time (`commit`, `begin_sync`, `wait_pre_meta`, `post_meta`, read transactions with
+/// `lookup_async` and iterators at every phase), the real `reconstruct` on a bbn file, and the read-path functions
+/// (`Index::lookup` / `next_key`, `find_key_pos`, `search_branch`, `LeafNode::get`) on caller-supplied pages.
+#[cfg(nomt_verif)]
+#[allow(missing_docs)]
+pub mod verif_tree {
+    use super::*;
+    use crate::io::{self, IoPool, PAGE_SIZE};
+    use std::collections::{BTreeSet, HashMap};
+
+    /// `(index key, bbn page number, [(separator i, leaf page number i)])` per bottom-level branch node, in key order.
+    pub type IndexDump = Vec<(Key, u32, Vec<(Key, u32)>)>;
+    pub type StagingDump = Vec<(Key, Option<Vec<u8>>)>;
+
+    fn guard<T>(f: impl FnOnce() -> T) -> Result<T, String> {
+        std::panic::catch_unwind(std::panic::AssertUnwindSafe(f)).map_err(|e| {
+            let msg = e
+                .downcast_ref::<String>()
+                .cloned()
+                .or_else(|| e.downcast_ref::<&str>().map(|s| s.to_string()))
+                .unwrap_or_else(|| "?".into());
+            format!("panic: {}", msg)
+        })
+    }
+
+    fn dump_index(index: &Index) -> IndexDump {
+        index
+            .verif_entries()
+            .into_iter()
+            .map(|(k, b)| {
+                let seps = (0..b.n() as usize)
+                    .map(|i| (branch::node::get_key(&b, i), b.node_pointer(i)))
+                    .collect();
+                (k, b.bbn_pn(), seps)
+            })
+            .collect()
+    }
+
+    fn dump_staging(m: &OrdMap<Key, ValueChange>) -> StagingDump {
+        m.iter()
+            .map(|(k, v)| (*k, v.as_option().map(|v| v.to_vec())))
+            .collect()
+    }
+
+    fn changeset(changes: Vec<(Key, Option<Vec<u8>>)>) -> Vec<(Key, ValueChange)> {
+        changes
+            .into_iter()
+            .map(|(k, v)| (k, ValueChange::from_option::<crate::hasher::Blake3Hasher>(v)))
+            .collect()
+    }
+
+    pub struct TreeSim {
+        tree: Tree,
+        io_pool: IoPool,
+        controller: Option<SyncController>,
+        ungated: Option<(Index, Receiver<TaskResult<()>>)>,
+    }
+
+    impl TreeSim {
+        /// `beatree::create` (fresh `ln` / `bbn` files of one reserved page each).
+        pub fn create(dir: &Path) -> anyhow::Result<()> {
+            create(dir)
+        }
+
+        /// `Tree::open` on `dir/ln`, `dir/bbn` with the manifest values given.
+        pub fn open(
+            dir: &Path,
+            ln_freelist_pn: u32,
+            bbn_freelist_pn: u32,
+            ln_bump: u32,
+            bbn_bump: u32,
+            commit_concurrency: usize,
+            leaf_cache_size: usize,
+            io_workers: usize,
+        ) -> Result<Self, String> {
+            let open = |name: &str| {
+                std::fs::OpenOptions::new()
+                    .read(true)
+                    .write(true)
+                    .open(dir.join(name))
+                    .map(Arc::new)
+                    .map_err(|e| format!("open {}: {}", name, e))
+            };
+            let ln_file = open("ln")?;
+            let bbn_file = open("bbn")?;
+            let page_pool = PagePool::new();
+            let io_pool = io::start_io_pool(io_workers, page_pool.clone());
+            let tree = guard(|| {
+                Tree::open(
+                    page_pool,
+                    &io_pool,
+                    ln_freelist_pn,
+                    bbn_freelist_pn,
+                    ln_bump,
+                    bbn_bump,
+                    bbn_file,
+                    ln_file,
+                    commit_concurrency,
+                    leaf_cache_size,
+                )
+            })?
+            .map_err(|e| format!("err: {:#}", e))?;
+            Ok(TreeSim {
+                tree,
+                io_pool,
+                controller: None,
+                ungated: None,
+            })
+        }
+
+        /// `Tree::lookup`
+        pub fn lookup(&self, key: Key) -> Result<Option<Vec<u8>>, String> {
+            guard(|| self.tree.lookup(key))
+        }
+
+        /// `Tree::commit` alone (in the crate it is only called at the head of the `begin_sync` task).
+        pub fn commit(&self, changes: Vec<(Key, Option<Vec<u8>>)>) {
+            Tree::commit(&self.tree.shared, changeset(changes));
+        }
+
+        /// `Tree::sync()` + `SyncController::begin_sync(changes)`: the task commits the changes, waits for the
+        /// read transactions, takes the staged changeset and runs `update`.
+        pub fn begin_sync(&mut self, changes: Vec<(Key, Option<Vec<u8>>)>) {
+            let mut controller = self.tree.sync();
+            controller.begin_sync(changeset(changes));
+            self.controller = Some(controller);
+        }
+
+        /// Has the `begin_sync` task delivered its result?
+        pub fn begin_sync_done(&self) -> bool {
+            self.controller
+                .as_ref()
+                .map_or(false, |c| !c.begin_sync_result_rx.is_empty())
+        }
+
+        /// `SyncController::wait_pre_meta`: `(ln_freelist_pn, ln_bump, bbn_freelist_pn, bbn_bump)`.
+        pub fn wait_pre_meta(&mut self) -> Result<(u32, u32, u32, u32), String> {
+            let controller = self.controller.as_mut().expect("begin_sync first");
+            guard(|| controller.wait_pre_meta())?
+                .map(|d| (d.ln_freelist_pn, d.ln_bump, d.bbn_freelist_pn, d.bbn_bump))
+                .map_err(|e| format!("err: {}", e))
+        }
+
+        /// `SyncController::post_meta`, then the controller is dropped (the sync lock is released).
+        pub fn post_meta(&mut self) -> Result<(), String> {
+            let mut controller = self.controller.take().expect("begin_sync first");
+            guard(|| controller.post_meta())
+        }
+
+        /// The body of the `begin_sync` task run on the calling thread with a read-transaction counter that is NOT
+        /// the tree's: `Tree::commit`, the real `Tree::prepare_sync` (whose `block_until_zero` therefore passes
+        /// at once although read transactions of the tree may be alive), both fsyncs.
+        pub fn prepare_sync_ungated(
+            &mut self,
+            changes: Vec<(Key, Option<Vec<u8>>)>,
+        ) -> Result<(u32, u32, u32, u32), String> {
+            let sync = self.tree.sync.lock();
+            Tree::commit(&self.tree.shared, changeset(changes));
+            let foreign_counter = ReadTransactionCounter::new();
+            let (d, index, rx) =
+                guard(|| Tree::prepare_sync(&sync, &self.tree.shared, &foreign_counter))?
+                    .map_err(|e| format!("err: {}", e))?;
+            sync.bbn_fsync.fsync();
+            sync.ln_fsync.fsync();
+            sync.bbn_fsync.wait().map_err(|e| format!("err: {}", e))?;
+            sync.ln_fsync.wait().map_err(|e| format!("err: {}", e))?;
+            drop(sync);
+            self.ungated = Some((index, rx));
+            Ok((d.ln_freelist_pn, d.ln_bump, d.bbn_freelist_pn, d.bbn_bump))
+        }
+
+        /// `post_meta` for [`Self::prepare_sync_ungated`].
+        pub fn finish_ungated(&mut self) {
+            let (index, rx) = self.ungated.take().expect("prepare_sync_ungated first");
+            join_task(&rx);
+            Tree::finish_sync(&self.tree.shared, index);
+        }
+
+        /// `Tree::read_transaction`
+        pub fn read_transaction(&self) -> RtxSim {
+            RtxSim {
+                rt: self.tree.read_transaction(),
+                io_handle: self.io_pool.make_handle(),
+            }
+        }
+
+        /// The shared branch index.
+        pub fn index(&self) -> IndexDump {
+            dump_index(&self.tree.shared.read().bbn_index)
+        }
+
+        /// The staging maps (values in full).
+        pub fn staging(&self) -> (StagingDump, Option<StagingDump>) {
+            let shared = self.tree.shared.read();
+            (
+                dump_staging(&shared.primary_staging),
+                shared.secondary_staging.as_ref().map(dump_staging),
+            )
+        }
+
+        /// Has a staged changeset been taken and not yet dropped (`secondary_staging.is_some()`)?
+        pub fn sync_in_flight(&self) -> bool {
+            self.tree.shared.read().secondary_staging.is_some()
+        }
+
+        /// The read-transaction counter.
+        pub fn live_read_transactions(&self) -> usize {
+            *self.tree.read_transaction_counter.inner.read_transactions.lock()
+        }
+
+        /// Pages tracked by the free lists of the two stores (`all_tracked_freelist_pages`): `(ln, bbn)`.
+        /// Must not be called while a sync is in flight.
+        pub fn tracked_free_pages(&self) -> (Vec<u32>, Vec<u32>) {
+            let shared = self.tree.shared.read();
+            let f = |s: &Store| s.all_tracked_freelist_pages().into_iter().map(|p| p.0).collect();
+            (f(&shared.leaf_store), f(&shared.bbn_store))
+        }
+    }
+
+    /// One item of an iterator: the inline value, or `(value hash, overflow cell)`.
+    pub type IterItem = (Key, Vec<u8>, Option<[u8; 32]>);
+
+    pub struct RtxSim {
+        rt: ReadTransaction,
+        io_handle: IoHandle,
+    }
+
+    impl RtxSim {
+        /// The snapshot's index and staging maps.
+        pub fn index(&self) -> IndexDump {
+            dump_index(&self.rt.inner.bbn_index)
+        }
+
+        pub fn staging(&self) -> (StagingDump, Option<StagingDump>) {
+            (
+                dump_staging(&self.rt.inner.primary_staging),
+                self.rt.inner.secondary_staging.as_ref().map(dump_staging),
+            )
+        }
+
+        /// `lookup_async`, then `AsyncLookup::try_finish` / `submit` until the value is there.
+        /// Returns the value and the number of page reads.
+        pub fn lookup(&self, key: Key) -> Result<(Option<Vec<u8>>, usize), String> {
+            guard(|| {
+                let mut pending = match self.rt.lookup_async(key, &self.io_handle, 0) {
+                    Ok(v) => return (v, 0),
+                    Err(pending) => pending,
+                };
+                let mut metas: HashMap<u64, OverflowPageInfo> = HashMap::new();
+                let mut next_user_data = 1u64;
+                let mut reads = 0;
+                loop {
+                    let complete = self.io_handle.recv().expect("I/O pool down");
+                    complete.result.expect("read failed");
+                    reads += 1;
+                    let meta = metas.remove(&complete.command.user_data);
+                    let page = complete.command.kind.unwrap_buf();
+                    if let Some(v) = pending.try_finish(page, meta) {
+                        return (v, reads);
+                    }
+                    while let Some(m) = pending.submit(&self.io_handle, next_user_data) {
+                        metas.insert(next_user_data, m);
+                        next_user_data += 1;
+                    }
+                }
+            })
+        }
+
+        /// `iterator(start, end)` driven to exhaustion: on `Blocked` the first of `needed_leaves` is loaded with
+        /// `load_leaf_async` and provided.  Returns the items and the leaf page numbers provided.
+        pub fn iterate(&self, start: Key, end: Option<Key>) -> Result<(Vec<IterItem>, Vec<u32>), String> {
+            guard(|| {
+                let mut iter = self.rt.iterator(start, end);
+                let mut items = Vec::new();
+                let mut provided = Vec::new();
+                loop {
+                    match iter.next() {
+                        None => break,
+                        Some(iterator::IterOutput::Item(k, v)) => {
+                            items.push((k, v.to_vec(), None));
+                            continue;
+                        }
+                        Some(iterator::IterOutput::OverflowItem(k, h, cell)) => {
+                            items.push((k, cell.to_vec(), Some(h)));
+                            continue;
+                        }
+                        Some(iterator::IterOutput::Blocked) => {}
+                    }
+                    let pn = iter.needed_leaves().next().expect("blocked without a needed leaf");
+                    provided.push(pn.0);
+                    let leaf = match self.rt.load_leaf_async(pn, &self.io_handle, 0) {
+                        Ok(leaf) => leaf,
+                        Err(load) => {
+                            let complete = self.io_handle.recv().expect("I/O pool down");
+                            complete.result.expect("read failed");
+                            load.finish(complete.command.kind.unwrap_buf())
+                        }
+                    };
+                    iter.provide_leaf(leaf);
+                }
+                (items, provided)
+            })
+        }
+    }
+
+    /// `Store::open(..).all_tracked_freelist_pages()` of the file at `path`.
+    pub fn tracked_of_file(path: &Path, bump: u32, freelist_pn: u32) -> Result<Vec<u32>, String> {
+        let file = Arc::new(File::open(path).map_err(|e| e.to_string())?);
+        let head = Some(PageNumber(freelist_pn)).filter(|&x| x != FREELIST_EMPTY);
+        let store = guard(|| Store::open(&PagePool::new(), file, PageNumber(bump), head))?
+            .map_err(|e| format!("err: {:#}", e))?;
+        Ok(store
+            .all_tracked_freelist_pages()
+            .into_iter()
+            .map(|p| p.0)
+            .collect())
+    }
+
+    /// `ops::reconstruct` over the file at `path`.
+    pub fn reconstruct(path: &Path, tracked: &[u32], bump: u32) -> Result<IndexDump, String> {
+        let file = Arc::new(File::open(path).map_err(|e| e.to_string())?);
+        let tracked: BTreeSet<PageNumber> = tracked.iter().map(|p| PageNumber(*p)).collect();
+        let index = guard(|| ops::reconstruct(file, &PagePool::new(), &tracked, PageNumber(bump)))?
+            .map_err(|e| format!("err: {:#}", e))?;
+        guard(|| dump_index(&index))
+    }
+
+    fn branch_of(page: &[u8]) -> branch::BranchNode {
+        assert_eq!(page.len(), PAGE_SIZE);
+        let mut b = branch::BranchNode::new_in(&PagePool::new());
+        b.as_mut_slice().copy_from_slice(page);
+        b
+    }
+
+    /// `ops::find_key_pos(branch, key, low)` on a raw branch page.
+    pub fn find_key_pos(page: &[u8], key: Key, low: Option<usize>) -> Result<(bool, usize), String> {
+        let b = branch_of(page);
+        guard(|| ops::find_key_pos(&b, &key, low))
+    }
+
+    /// `ops::search_branch(branch, key)` on a raw branch page.
+    pub fn search_branch(page: &[u8], key: Key) -> Result<Option<(usize, u32)>, String> {
+        let b = branch_of(page);
+        guard(|| ops::search_branch(&b, key).map(|(i, pn)| (i, pn.0)))
+    }
+
+    /// `LeafNode::get(key)` on a raw leaf page: `(cell bytes, overflow flag)`.
+    pub fn leaf_get(page: &[u8], key: Key) -> Result<Option<(Vec<u8>, bool)>, String> {
+        assert_eq!(page.len(), PAGE_SIZE);
+        let pool = PagePool::new();
+        let mut fat = pool.alloc_fat_page();
+        fat[..].copy_from_slice(page);
+        let leaf = leaf::node::LeafNode { inner: fat };
+        guard(|| leaf.get(&key).map(|(v, o)| (v.to_vec(), o)))
+    }
+
+    /// An index over the given branch pages (keyed as `reconstruct` keys them: `get_key(branch, 0)`), then
+    /// `Index::lookup(key)` (the key it is stored under and its `bbn_pn`), `Index::next_key(key)` and
+    /// `ops::partial_lookup(key, index)`.
+    pub fn index_ops(
+        pages: &[Vec<u8>],
+        key: Key,
+    ) -> Result<(Option<(Key, u32)>, Option<Key>, Option<u32>), String> {
+        guard(|| {
+            let mut index = Index::default();
+            for p in pages {
+                let b = Arc::new(branch_of(p));
+                index.insert(branch::node::get_key(&b, 0), b);
+            }
+            (
+                index.lookup(key).map(|(k, b)| (k, b.bbn_pn())),
+                index.next_key(key),
+                ops::partial_lookup(key, &index).map(|p| p.0),
+            )
+        })
+    }
+}
